@@ -348,10 +348,11 @@ def check(prop, tier, only_obligation=None):
                 kf_lines.append(f"KNOWN-FINDING: property={prop} {fd['id']}: {listed[fd['id']].get('what', fd['what'])}")
             else:
                 print(f"note: known finding {fd['id']} no longer reproduces (its full-domain obligation verifies)")
-    # real-code replay of the stored failing inputs of repaired defects: always in the thorough tier; in the quick tier only
-    # when the deductive check could not decide (a structural change lost the contract anchors)
+    # real-code replay of the stored failing inputs (repaired defects, scenarios of seeded changes): always in the thorough tier; in the
+    # quick tier when the deductive check could not decide (a structural change lost the contract anchors) and when an obligation FAILED
+    # (Verus gives no counterexample: a stored scenario that now fails on the real code is the failing input attached to the report)
     witness_runs = []
-    if only_obligation is None and (tier == "thorough" or (undecided and not violations)):
+    if only_obligation is None and (tier == "thorough" or undecided or violations):
         import witness
         ws = witness.witnesses_for(prop)
         if ws:
